@@ -205,6 +205,10 @@ class C05(PropertyCheck):
         for i, (a, b) in enumerate(itertools.combinations(writers[:6] if q else writers, 2)):
             jobs.append(Job("cw%d" % i, [("cmd", a), ("cmd", b), ("copy",), ("sweep", 0)] if not q or i % 4 == 0 else
                             [("cmd", a), ("cmd", b), ("sweep", 0)], {"max": 150 if q else 400}))
+        # a state copy that is rendered only after the other command has finished (regression of the repaired
+        # defect "the copy shares sets / sorted sets / hashes with the store by pointer"): the model's copy is a value
+        for i, a in enumerate([c for c in pool if c[0] in ("SADD", "SREM", "SMOVE", "ZADD", "ZINCRBY", "ZREM", "HSET", "HDEL", "LPUSH", "APPEND")]):
+            jobs.append(Job("cl%d" % i, [("cmd", a), ("copylate",)]))
         # three commands
         trip = list(itertools.combinations(range(len(core)), 3))
         rng.shuffle(trip)
@@ -434,7 +438,7 @@ class C05(PropertyCheck):
         return ["one step of the model = one keyspace primitive under the store lock; sync.Mutex / sync.RWMutex behave as mutual exclusion (Go runtime, not verified)",
                 "maxmemory = 0: the eviction passes of updateKeysInCache (asynchronous goroutines) do nothing; with a limit they delete keys between the primitives of a command (C08 territory)",
                 "standalone mode; in cluster mode commands applied by the raft FSM do not take the command lock",
-                "values shared by pointer (sets, sorted sets, hash maps) between the store and a state copy are encoded after the lock has been released: Go-level races there are outside the model",
+                "Go-level data races are outside the model (the race-detector stress of the thorough tier is supporting evidence); a state copy is compared as a value, rendered after the other command has finished (copylate jobs)",
                 "the sampler samples all volatile keys of the database (EvictionSample >= their number in every job)"]
 
     @classmethod
